@@ -132,6 +132,168 @@ impl BigInt {
 //@ end
 }
 
+/// r is b^e reduced modulo m: r = b^e + k*m for some integer k
+pub open spec fn is_modpow(b: int, e: nat, m: int, r: int) -> bool { exists|k: int| r == vstd::arithmetic::power::pow(b, e) + #[trigger] (k * m) }
+
+impl BigUint {
+    //@ assume BigUint::modpow : dispatch to monty_modpow (odd modulus) / plain_modpow (even); both assumed (Montgomery kernels and window exponentiation: units pending); contract from the property statement
+    #[verifier::external_body]
+    pub fn modpow(&self, exponent: &Self, modulus: &Self) -> (r: Self)
+        requires self.wf(), exponent.wf(), modulus.wf(), !mp() ==> modulus.v() != 0
+        ensures mp() ==> modulus.v() != 0, r.wf(), r.v() < modulus.v(), is_modpow(self.v() as int, exponent.v(), modulus.v() as int, r.v() as int)
+    { unimplemented!() }
+    //@ assume BigUint::is_odd : first-digit parity through num_integer::Integer on u64 (external crate)
+    #[verifier::external_body]
+    pub fn is_odd(&self) -> (r: bool)
+        ensures r == (self.v() % 2 == 1)
+    { unimplemented!() }
+}
+impl BigInt {
+    // re-homed `Integer::is_odd for BigInt` (src/bigint.rs): `self.data.is_odd()`
+//@ extract src/bigint.rs :: impl Integer for BigInt :: fn is_odd props=C13 label=bigint_is_odd
+    fn is_odd(&self) -> /*+*/(r: /*-*/bool/*+*/)/*-*/
+//+{
+        ensures r == (self.mag().v() % 2 == 1)
+//+}
+    {
+        self.data.is_odd()
+    }
+//@ end
+}
+
+pub proof fn lemma_modpow_signs(b: nat, e: nat, m: nat, r: nat, neg: bool)
+    requires m >= 1, r < m, is_modpow(b as int, e, m as int, r as int), neg ==> e % 2 == 1
+    ensures
+        // base sign: (-b)^e = -(b^e) for odd e, b^e for even e
+        !neg ==> is_modpow(b as int, e, m as int, r as int) && is_modpow(b as int, e, -(m as int), -((m - r) as int)) && is_modpow(b as int, e, -(m as int), r as int),
+        neg ==> is_modpow(-(b as int), e, m as int, (m - r) as int) && is_modpow(-(b as int), e, -(m as int), -(r as int)),
+{
+    let bi = b as int; let mi = m as int; let ri = r as int;
+    let k = choose|k: int| ri == vstd::arithmetic::power::pow(bi, e) + #[trigger] (k * mi);
+    let p = vstd::arithmetic::power::pow(bi, e);
+    if !neg {
+        assert(-((m - r) as int) == p + (1 - k) * (-mi)) by (nonlinear_arith) requires ri == p + k * mi, mi == m as int, ri == r as int, r < m;
+        assert(ri == p + (-k) * (-mi)) by (nonlinear_arith) requires ri == p + k * mi;
+        assert(-((m - r) as int) == p + #[trigger] ((1 - k) * (-mi)));
+        assert(ri == p + #[trigger] ((-k) * (-mi)));
+    } else {
+        lemma_pow_neg_odd(bi, e);
+        let pn = vstd::arithmetic::power::pow(-bi, e);
+        assert(pn == -p);
+        assert(((m - r) as int) == pn + (1 - k) * mi) by (nonlinear_arith) requires ri == p + k * mi, pn == -p, mi == m as int, ri == r as int, r < m;
+        assert(-ri == pn + k * (-mi)) by (nonlinear_arith) requires ri == p + k * mi, pn == -p;
+        assert(((m - r) as int) == pn + #[trigger] ((1 - k) * mi));
+        assert(-ri == pn + #[trigger] (k * (-mi)));
+    }
+}
+
+/// (-b)^e == -(b^e) for odd e
+pub proof fn lemma_pow_neg_odd(b: int, e: nat)
+    requires e % 2 == 1
+    ensures vstd::arithmetic::power::pow(-b, e) == -vstd::arithmetic::power::pow(b, e)
+    decreases e
+{
+    use vstd::arithmetic::power::*;
+    if e == 1 {
+        lemma_pow1(b); lemma_pow1(-b);
+    } else {
+        lemma_pow_neg_odd(b, (e - 2) as nat);
+        lemma_pow_adds(b, 2, (e - 2) as nat);
+        lemma_pow_adds(-b, 2, (e - 2) as nat);
+        lemma_pow_adds(b, 1, 1); lemma_pow_adds(-b, 1, 1); lemma_pow1(b); lemma_pow1(-b);
+        assert((-b) * (-b) == b * b) by (nonlinear_arith);
+        let q = pow(b, (e - 2) as nat);
+        assert((b * b) * (-q) == -((b * b) * q)) by (nonlinear_arith);
+    }
+}
+
+//@ extract src/bigint/power.rs :: fn modpow rules=R0,R11,R3d props=C05,C14 label=bigint_modpow
+pub(super) fn modpow(x: &BigInt, exponent: &BigInt, modulus: &BigInt) -> /*+*/(res: /*-*/BigInt/*+*/)/*-*/
+//+{
+    requires x.wfi(), exponent.wfi(), modulus.wfi(), !mp() ==> exponent.iv() >= 0 && modulus.iv() != 0
+    ensures mp() ==> exponent.iv() >= 0 && modulus.iv() != 0, res.wfi(),
+        is_modpow(x.iv(), exponent.mag().v(), modulus.iv(), res.iv()),
+        modulus.iv() > 0 ==> 0 <= res.iv() < modulus.iv(),
+        modulus.iv() < 0 ==> modulus.iv() < res.iv() <= 0,
+//+}
+{
+//+{
+    proof { lemma_sgn_mul(x.sign, x.data.v()); lemma_sgn_mul(modulus.sign, modulus.data.v()); lemma_sgn_mul(exponent.sign, exponent.data.v()); }
+//+}
+    __assert(
+        !exponent.is_negative()
+    );
+    __assert(
+        !modulus.is_zero()
+    );
+
+    let result = x.data.modpow(&exponent.data, &modulus.data);
+//+{
+    proof {
+        lemma_modpow_signs(x.data.v(), exponent.data.v(), modulus.data.v(), result.v(), x.iv() < 0 && exponent.data.v() % 2 == 1);
+        if result.v() == 0 && x.iv() < 0 && exponent.data.v() % 2 == 0 { lemma_pow_neg_even(x.data.v() as int, exponent.data.v()); }
+        if x.iv() < 0 && exponent.data.v() % 2 == 0 { lemma_pow_neg_even(x.data.v() as int, exponent.data.v()); }
+    }
+//+}
+    if result.is_zero() {
+//+{
+        proof { lemma_modpow_zero(x.iv(), x.data.v(), exponent.data.v(), modulus.iv(), modulus.data.v()); }
+//+}
+        return BigInt::ZERO;
+    }
+
+    // The sign of the result follows the modulus, like `mod_floor`.
+    let (sign, mag) = match (x.is_negative() && exponent.is_odd(), modulus.is_negative()) {
+        (false, false) => (Plus, result),
+        (true, false) => (Plus, Sub::sub(&modulus.data, result)),
+        (false, true) => (Minus, Sub::sub(&modulus.data, result)),
+        (true, true) => (Minus, result),
+    };
+//+{
+    proof { lemma_sgn_mul(sign, mag.v()); }
+//+}
+    BigInt::from_biguint(sign, mag)
+}
+//@ end
+
+/// (-b)^e == b^e for even e
+pub proof fn lemma_pow_neg_even(b: int, e: nat)
+    requires e % 2 == 0
+    ensures vstd::arithmetic::power::pow(-b, e) == vstd::arithmetic::power::pow(b, e)
+    decreases e
+{
+    use vstd::arithmetic::power::*;
+    if e == 0 { lemma_pow0(b); lemma_pow0(-b); }
+    else {
+        lemma_pow_neg_even(b, (e - 2) as nat);
+        lemma_pow_adds(b, 2, (e - 2) as nat);
+        lemma_pow_adds(-b, 2, (e - 2) as nat);
+        lemma_pow_adds(b, 1, 1); lemma_pow_adds(-b, 1, 1); lemma_pow1(b); lemma_pow1(-b);
+        assert((-b) * (-b) == b * b) by (nonlinear_arith);
+    }
+}
+
+/// a zero unsigned residue is a zero signed residue for every sign combination
+pub proof fn lemma_modpow_zero(x: int, xa: nat, e: nat, m: int, ma: nat)
+    requires ma >= 1, is_modpow(xa as int, e, ma as int, 0), (x == xa as int || x == -(xa as int)), (m == ma as int || m == -(ma as int))
+    ensures is_modpow(x, e, m, 0)
+{
+    let p = vstd::arithmetic::power::pow(xa as int, e);
+    let k = choose|k: int| 0 == p + #[trigger] (k * (ma as int));
+    let px = vstd::arithmetic::power::pow(x, e);
+    if x == -(xa as int) && x != xa as int {
+        if e % 2 == 1 { lemma_pow_neg_odd(xa as int, e); } else { lemma_pow_neg_even(xa as int, e); }
+    }
+    // px == p or px == -p
+    if px == p {
+        if m == ma as int { assert(0 == px + #[trigger] (k * m)); }
+        else { assert(0 == px + (-k) * m) by (nonlinear_arith) requires 0 == p + k * (ma as int), m == -(ma as int), px == p; assert(0 == px + #[trigger] ((-k) * m)); }
+    } else {
+        if m == ma as int { assert(0 == px + (-k) * m) by (nonlinear_arith) requires 0 == p + k * (ma as int), m == ma as int, px == -p; assert(0 == px + #[trigger] ((-k) * m)); }
+        else { assert(0 == px + k * m) by (nonlinear_arith) requires 0 == p + k * (ma as int), m == -(ma as int), px == -p; assert(0 == px + #[trigger] (k * m)); }
+    }
+}
+
 } // mod u
 } // verus!
 fn main() {}
